@@ -5,6 +5,7 @@ import (
 	"go/ast"
 	"go/token"
 	"go/types"
+	"sort"
 	"strings"
 )
 
@@ -161,6 +162,7 @@ func (u *Unit) checkExit(st *State, fr *Frame) {
 		return
 	}
 	u.reached["exit return"] = true
+	u.publishCheck(st, pos)
 	sev := u.specEv(st, pos, u.name+" ensures")
 	var vals []Value
 	if len(u.resultObjs) > 0 && len(fr.results) > 0 {
@@ -195,12 +197,14 @@ func (u *Unit) checkExit(st *State, fr *Frame) {
 		u.emit(st, fmt.Sprintf("post#%d", i), g.T, e.Text)
 	}
 	if u.c.HasMod {
-		u.frameCheck(st, pos)
+		u.frameCheckWith(st, pos, sev.binds)
 	}
 }
 
+func (u *Unit) frameCheck(st *State, pos token.Pos) { u.frameCheckWith(st, pos, nil) }
+
 // frameCheck: every heap family changed on this path is covered by the modifies clause.
-func (u *Unit) frameCheck(st *State, pos token.Pos) {
+func (u *Unit) frameCheckWith(st *State, pos token.Pos, resBinds map[string]Value) {
 	entry := u.entry
 	type target struct {
 		wildcard bool
@@ -223,6 +227,17 @@ func (u *Unit) frameCheck(st *State, pos token.Pos) {
 		e := m.Expr
 		if e == nil {
 			continue
+		}
+		if mentionsResult(u.c, e) {
+			// a location named through a result (e.g. the model field of the object returned)
+			if resBinds == nil {
+				continue
+			}
+			for k, v := range resBinds {
+				if _, has := oev.binds[k]; !has {
+					oev.binds[k] = v
+				}
+			}
 		}
 		if id, ok := e.(*ast.Ident); ok {
 			if id.Name == "heap" {
@@ -582,4 +597,61 @@ func (u *Unit) listIterLoop(st *State, x *ast.ForStmt, ls *LoopSpec, id string, 
 	st.assume(fmt.Sprintf("(forall ((v Ref)) (! (=> (= (select %s v) %s) (select %s v)) :pattern ((select %s v))))", lo2.T, lv.T, seen, lo2.T))
 	delete(st.env, eObj)
 	k(st)
+}
+
+// publishCheck: an object this function allocated and whose type carries a lock invariant must satisfy that invariant
+// when the function returns (from then on other threads may lock it and assume the invariant).
+func (u *Unit) publishCheck(st *State, pos token.Pos) {
+	var refs []string
+	for r := range u.allocT {
+		refs = append(refs, r)
+	}
+	sort.Strings(refs)
+	for _, r := range refs {
+		t := u.allocT[r]
+		n, ok := t.(*types.Named)
+		if !ok || n.Obj().Pkg() == nil {
+			continue
+		}
+		prefix := n.Obj().Pkg().Path() + "." + n.Obj().Name() + "."
+		var keys []string
+		for k := range u.eng.cs.LockInvs {
+			if strings.HasPrefix(k, prefix) {
+				keys = append(keys, k)
+			}
+		}
+		sort.Strings(keys)
+		for _, k := range keys {
+			li := u.eng.cs.LockInvs[k]
+			if st.held[r+"."+li.Field] {
+				continue
+			}
+			sev := u.specEv(st, pos, "publish "+li.TypeName+"."+li.Field)
+			sev.binds[li.Recv] = scalar(r, SRef, types.NewPointer(t))
+			sev.pkg = u.eng.pkgs[li.PkgPath]
+			for i, inv := range li.Invs {
+				g := sev.expr(inv.Expr)
+				u.emit(st, fmt.Sprintf("lockinv@publish/%s.%s#%d", li.TypeName, li.Field, i), g.T, inv.Text)
+			}
+		}
+	}
+}
+
+// mentionsResult: the modifies target names a result of the function (evaluated once the results exist).
+func mentionsResult(c *Contract, e ast.Expr) bool {
+	found := false
+	ast.Inspect(e, func(n ast.Node) bool {
+		if id, ok := n.(*ast.Ident); ok {
+			if id.Name == "result" {
+				found = true
+			}
+			for _, r := range c.ResultNames {
+				if id.Name == r {
+					found = true
+				}
+			}
+		}
+		return !found
+	})
+	return found
 }
